@@ -62,10 +62,18 @@ func topVoreFrame() string {
 	return "?"
 }
 
+// sawSoftHeap: an op of the current run was stopped by the default heap safety
+// limit. Memory use of Run is not bounded by any claimed property, so the run
+// is discarded (counted), never reported.
+var sawSoftHeap bool
+
 // panicOutcome classifies a recovered panic value. Called from a deferred
 // function directly (Callers skip count depends on it).
 func panicOutcome(r any) Outcome {
 	if a, ok := r.(simrt.Abort); ok {
+		if a.Kind == "heap-soft" {
+			sawSoftHeap = true
+		}
 		return Outcome{Class: "abort", Detail: a.Kind}
 	}
 	msg := fmt.Sprint(r)
@@ -198,6 +206,17 @@ func doCompileRun(src, text string) Outcome {
 func treeSpawns(env *Env) bool {
 	var inv inventoryFile
 	return readJSON(env.Inventory, &inv) == nil && len(inv.GoStmts) > 0
+}
+
+var spawnsCache = map[string]bool{}
+
+func treeSpawnsCached(env *Env) bool {
+	if v, ok := spawnsCache[env.Inventory]; ok {
+		return v
+	}
+	v := treeSpawns(env)
+	spawnsCache[env.Inventory] = v
+	return v
 }
 
 // soloPlan draws a preemption plan for a single-task run of about estSteps
